@@ -117,7 +117,8 @@ func (r *modelResp) authentic(presented *big.Int) bool {
 }
 
 // ---- cache2go model (read from cachetable.go / cacheitem.go) ----
-// item alive at t iff lifeSpan == 0 or t - accessedOn < lifeSpan (prompt expiry); a hit sets accessedOn = now.
+// item alive at t iff lifeSpan == 0 or t - accessedOn < lifeSpan; an expired item may still be handed out
+// (the expiry timer runs in its own goroutine, with arbitrary latency); a hit sets accessedOn = now.
 
 type citem struct {
 	key        interface{}
@@ -134,7 +135,10 @@ var (
 	cacheAdds []*citem
 )
 
+var lateTimers int
+
 func installCache() {
+	lateTimers = verifrt.Param("late", 0) // how many expiry timers may be late on a path
 	tables = map[string]*cache2go.CacheTable{}
 	tblItems = map[*cache2go.CacheTable][]*citem{}
 	itemOf = map[*cache2go.CacheItem]*citem{}
@@ -152,7 +156,12 @@ func installCache() {
 		for _, it := range tblItems[t] {
 			if it.key == key {
 				if it.lifeSpan != 0 && now.Sub(it.accessedOn) >= it.lifeSpan {
-					continue // expired (removed by the timer)
+					// expired: cache2go removes it from a timer goroutine - which may not have run yet
+					// (at most once per path: one late timer is enough to expose what relies on prompt expiry)
+					if lateTimers == 0 || !verifrt.NondetBool("cache2go_timer_late") {
+						continue
+					}
+					lateTimers--
 				}
 				it.accessedOn = now
 				h := new(cache2go.CacheItem)
